@@ -156,7 +156,9 @@ def trait_of(cfg):
     half = lambda h: None if h == NoNum else h / 2.0
     if t == "NoneT":
         return None
-    if t in ("Int", "Float", "Complex", "Str", "Bytes", "Bool", "CInt", "CFloat", "CStr", "CBool", "Any"):
+    if t in _LEGACY:
+        return legacy_trait(cfg)
+    if t in ("Int", "Float", "Complex", "Str", "Bytes", "Bool", "CInt", "CFloat", "CStr", "CBool", "Any", "CComplex"):
         return getattr(T, t if (fast or t == "Any") else "Base" + t)()
     if t == "RangeF":
         return (T.Range if fast else T.BaseRange)(low=half(cfg["lo"]), high=half(cfg["hi"]), exclude_low=cfg["xl"],
@@ -193,6 +195,72 @@ def trait_of(cfg):
         ms = [trait_of(m) for m in cfg["ms"]]
         return T.Either(*ms) if fast else T.Union(*ms)
     raise MachineryError("trait type " + t)
+
+
+_LEGACY = ("TCoerce", "TCast", "TInst", "TFunc", "TEnum", "TMap", "TUnion")
+_PYTYPES = {"float": float, "complex": complex, "int": int, "str": str, "bool": bool}
+_CONSTS = {"float": 0.0, "complex": 0j, "int": 0, "str": "", "bool": False}
+_MAPVAL = {"s_a": 1, "s_aaa": 2, "s_abc": 5, "s_5": 10}
+
+
+def _legacy_fval(obj, name, value):
+    """the validator function of TFunc (Validate.tla FuncV)"""
+    from traits.trait_errors import TraitError
+    if type(value) is int and value >= 0:
+        return value
+    if type(value) is str and value == "5":
+        return 5
+    raise TraitError("not acceptable")
+
+
+def legacy_item(cfg):
+    """the item standing for the configuration in the argument list of Trait(default, item, ...)"""
+    from traits import trait_handlers as H
+    w = world()
+    t = cfg["t"]
+    if t == "TCoerce":
+        return _PYTYPES[cfg["k"]]                       # a Python type -> TraitCoerceType
+    if t == "TCast":
+        return H.TraitCastType(_PYTYPES[cfg["k"]])
+    if t == "TInst":
+        return H.TraitInstance(w[cfg["k"]], allow_none=cfg["an"])
+    if t == "TFunc":
+        return _legacy_fval                             # a function -> TraitFunction
+    if t == "TEnum":
+        return H.TraitEnum([w["toks"][v] for v in sorted(cfg["vals"])])
+    if t == "TMap":
+        return {w["toks"][k]: _MAPVAL[k] for k in sorted(cfg["vals"])}     # a dict -> TraitMap
+    raise MachineryError("legacy item " + t)
+
+
+def legacy_trait(cfg):
+    """the trait as the Trait() factory makes it (the forms of its documented table)"""
+    import warnings
+    from traits.api import Trait
+    w = world()
+    t = cfg["t"]
+    with warnings.catch_warnings():
+        warnings.simplefilter("ignore")
+        if t == "TCoerce":
+            return Trait(_PYTYPES[cfg["k"]])                # Trait(type)
+        if t == "TCast":
+            return Trait(_CONSTS[cfg["k"]])                 # Trait(constant): the type is inferred
+        if t == "TInst":
+            if cfg.get("nm"):
+                return Trait(w[cfg["k"]])                   # Trait(class)
+            from traits.trait_handlers import TraitInstance
+            return Trait(None, w[cfg["k"]]) if cfg["an"] else Trait(TraitInstance(w[cfg["k"]], allow_none=False))
+        if t == "TFunc":
+            return Trait(0, _legacy_fval)
+        if t == "TEnum":
+            vals = [w["toks"][v] for v in sorted(cfg["vals"])]
+            return Trait(vals[0], *vals)
+        if t == "TMap":
+            keys = sorted(cfg["vals"])
+            return Trait(w["toks"][keys[0]], {w["toks"][k]: _MAPVAL[k] for k in keys})
+        if t == "TUnion":
+            return Trait(None, *[legacy_item(m) for m in cfg["ms"]])
+    raise MachineryError("legacy trait " + t)
 
 
 def holder(cfg, via=None, shape=None):
@@ -246,7 +314,7 @@ def outcome(fn, loose, strlen=False):
 
 
 def is_loose(cfg):
-    return cfg["t"] in ("CStr", "String") or any(is_loose(m) for m in cfg["ms"])
+    return cfg["t"] in ("CStr", "String") or (cfg["t"] == "TCast" and cfg["k"] == "str") or any(is_loose(m) for m in cfg["ms"])
 
 
 def has_string(cfg):
@@ -256,7 +324,7 @@ def has_string(cfg):
 def execute(cfg, tok, route, via=None):
     w = world()
     shape = route if route in ("proto", "prop") else None
-    if shape and (cfg["t"] in ("Map", "PrefixMap", "NoneT") or via is not None):
+    if shape and (cfg["t"] in ("Map", "PrefixMap", "NoneT", "TMap") or via is not None):
         return None          # the shadow attribute of mapped traits is a feature of direct declarations
     try:
         cls = holder(cfg, via, shape)
@@ -319,7 +387,7 @@ def execute(cfg, tok, route, via=None):
         from traits.trait_converters import trait_from
         ctrait = trait_from(trait_of(cfg))
     sh = proj(None)
-    if cfg["t"] in ("Map", "PrefixMap") and a["tag"] == "store":
+    if cfg["t"] in ("Map", "PrefixMap", "TMap") and a["tag"] == "store":
         try:
             sh = proj(o.x_)
         except Exception as e:
@@ -372,6 +440,8 @@ def run_for(rep, tier, seed, pid):
         dump = os.path.join(work, "cases")
         res = tlc.run_tlc("ValidateMC", "ValidateMC_%s.cfg" % tier, dump=dump, timeout=3000, workers=4)
         rep.add_tlc("ValidateMC", res)
+        if not res.ok:
+            return                 # the specification itself violates a property (reported); the dump is incomplete
         trace = os.path.join(work, "trace.ndjson")
         tot = cases.run_dump_cases(dump + ".dump", case_fn, out_ndjson=trace, reps=len(ROUTES))
         os.unlink(dump + ".dump")
@@ -467,7 +537,7 @@ def involves(cfg, tok, pred):
     w = world()
     if pred(cfg, tok):
         return True
-    if cfg["t"] == "Union":
+    if cfg["t"] in ("Union", "TUnion"):
         return any(involves(m, tok, pred) for m in cfg["ms"])
     if cfg["t"] == "Tuple":
         v = w["toks"][tok]
